@@ -22,7 +22,7 @@ func init() {
 			"(6) an empty value is not turned into a deletion on the request path. " +
 			"Added after blind round 4: the prefix/suffix predicates (bytes.HasPrefix/HasSuffix or a hand-written test that agrees with them on the length/equality table).",
 		NotDecided: "equality of responses with the embedded API for all request sequences and data sets; gRPC transport behaviour; connection-bound transaction cleanup; GetStats contents.",
-		Rules:      []func(*Ctx, *Reporter){ruleC19Delegation, ruleC19Limits, ruleC19Rejection, ruleC19Handles, ruleC19ScanOptions, ruleScanConsumers, ruleEmptyNotDeleted, ruleFilter},
+		Rules:      []func(*Ctx, *Reporter){ruleC19Delegation, ruleC19Limits, ruleC19Rejection, ruleC19Handles, ruleC19ScanOptions, ruleScanConsumers, ruleEmptyNotDeleted, ruleFilter, ruleTxOrphanRemoval},
 	})
 }
 
